@@ -279,6 +279,16 @@ def run(ctx):
         if o["rule"] == "R10.1" and any(x in o["key"] for x in ("move-old-to-new", "insert-under-own-expiry", "shard-from-expiry")):
             ctx._add(o["status"], "R09.8", o["key"].split("|", 1)[1], o["desc"], o["where"], o["detail"])
 
+    # ---- R09.10 (= C10 R10.4, C08 R08.10) a deadline filed for an earlier incarnation of a key goes when that incarnation
+    # goes: an entry removed outside the handlers that unregister its (id, expiry) pair leaves a stale deadline behind, and
+    # the sweep of that deadline removes - by key - the value written later, before *its* expiry (or although it has none)
+    for o in ctx.own_of("c10"):
+        if o["rule"] == "R10.4" and "unregister-iff-had-expiry" in o["key"]:
+            ctx._add(o["status"], "R09.10", o["key"].split("|", 1)[1], o["desc"], o["where"], o["detail"])
+    for o in ctx.own_of("c08"):
+        if o["rule"] == "R08.10":
+            ctx._add(o["status"], "R09.10", o["key"].split("|", 1)[1], o["desc"], o["where"], o["detail"])
+
     # ---- R09.6 boundary agreement --------------------------------------------------------------------------
     from tickermodel import TickerModel
     from c10 import retain_table
